@@ -85,3 +85,22 @@ mutant("c01-yield-old-time", "C01", "R1.", (BD, "            self.prev_values.po
 mutant("c01-initial-dt", "C01", "R1.3/Adams::solve/initial-dt-convex", (AD, "dt: Self::Field::from_real(dt_max + dt_min) * half,", "dt: Self::Field::from_real(dt_max + dt_min),"))
 benign("c01-clamp-min", "C01", (BD, "                if self.dt.real() > self.dt_max.real() {\n                    self.dt = self.dt_max;\n                }\n", "                if self.dt.real() >= self.dt_max.real() {\n                    self.dt = self.dt_max;\n                }\n"))
 mutant("c03-adams-lag2", "C03", "R3.6", (AD, "                self.prev_derivatives\n                    .push_back(self.implicit_derivs.clone());\n                self.prev_derivatives.pop_front();\n                return Err(IVPStatus::Redo);", "                return Err(IVPStatus::Redo);"))
+
+# ---- C02
+mutant("c02-rk-accept-flipped", "C02", "R2.", (RK, "        if error <= self.tolerance.real() {\n            self.time += self.dt;", "        if error >= self.tolerance.real() {\n            self.time += self.dt;"))
+mutant("c02-adams-wrong-bound", "C02", "R2.1/AdamsSolver::step", (AD, "        if error <= self.tolerance.real() {\n            self.state = corrector;", "        if error <= self.dt_min.real() {\n            self.state = corrector;"))
+mutant("c02-bdf-commit-before-test", "C02", "R2.1/BDFSolver::step/commit", (BD, "        if error <= self.tolerance.real() {\n            self.state = higher_step;\n            self.time += self.dt;", "        self.state = higher_step.clone();\n        if error <= self.tolerance.real() {\n            self.state = higher_step;\n            self.time += self.dt;"))
+mutant("c02-rk-second-predicate", "C02", "R2.2/RungeKuttaSolver::step", (RK, "        if error <= self.tolerance.real() {\n            Ok((self.time.real(), self.state.clone()))", "        if error <= self.dt_max.real() {\n            Ok((self.time.real(), self.state.clone()))"))
+mutant("c02-rk-estimate-not-per-step", "C02", "R2.3-estimate/RungeKuttaSolver::step", (RK, "let error = self.scratch_pad.norm() / self.dt.real();", "let error = self.scratch_pad.norm();"))
+mutant("c02-bdf-estimate", "C02", "R2.3-estimate/BDFSolver::step", (BD, "let difference = &higher_step - &lower_step;", "let difference = &higher_step - &self.state;"))
+mutant("c02-adams-error-coeff-sign", "C02", "R2.3-estimate/ivp::adams", (AD, "let error = self.error_coefficient.real() / self.dt.real() * difference.norm();", "let error = -self.error_coefficient.real() / self.dt.real() * difference.norm();"))
+benign("c02-accept-rewrite", "C02", (BD, "        if error <= self.tolerance.real() {\n            self.state = higher_step;", "        if self.tolerance.real() >= error {\n            self.state = higher_step;"))
+
+# ---- C05
+mutant("c05-min-dt-wrong-guard", "C05", "R5.1", (RK, "if self.dt.real() < self.dt_min.real() && self.time.real() < self.end.real() {", "if self.dt.real() < self.dt_max.real() && self.time.real() < self.end.real() {"))
+mutant("c05-adams-no-min-test", "C05", "R5.2/AdamsSolver::step", (AD, "        if self.dt.real() < self.dt_min.real() {\n            return Err(IVPStatus::Failure(IVPError::MinimumTimeDeltaExceeded));\n        }\n\n        self.prev_values.clear();\n        self.prev_derivatives.clear();\n        Err(IVPStatus::Redo)", "        self.prev_values.clear();\n        self.prev_derivatives.clear();\n        Err(IVPStatus::Redo)"))
+mutant("c05-bdf-reject-grows", "C05", "R5.4/BDFSolver::step/reject-shrinks", (BD, "        self.dt *= self.half;\n\n        if self.dt.real() < self.dt_min.real() {", "        self.dt *= self.two;\n\n        if self.dt.real() < self.dt_min.real() {"))
+mutant("c05-secant-unbounded", "C05", "R5.3", (BD, "                return Ok(guess);\n            }\n            n += 1;\n        }\n\n        Err(IVPError::MaximumIterationsExceeded)", "                return Ok(guess);\n            }\n            n += 0;\n        }\n\n        Err(IVPError::MaximumIterationsExceeded)"))
+mutant("c05-one-tenth", "C05", "R5.4/RungeKutta::solve/const:one_tenth", (RK, "Self::Field::one() / Self::Field::from_u8(10).ok_or(IVPError::FromPrimitiveFailure)?;", "Self::Field::from_u8(10).ok_or(IVPError::FromPrimitiveFailure)?;"))
+mutant("c05-rk-redo-before-update", "C05", "R5.2/RungeKuttaSolver::step", (RK, "        let delta = self.point_eighty_four.real()", "        if error > self.tolerance.real() && self.dt.real() > self.dt_min.real() {\n            return Err(IVPStatus::Redo);\n        }\n        let delta = self.point_eighty_four.real()"))
+benign("c05-secant-bound", "C05", (BD, "while n < 1000 {", "while n <= 999 {"))
